@@ -19,6 +19,8 @@ pub fn run(ctx: &RunCtx) -> i32 {
         "C04" => c04::run(ctx),
         "C05" => crate::e3::c05::run(ctx),
         "C06" => crate::e3::c06::run(ctx),
+        "C07" => crate::e3::c07::run(ctx),
+        "C08" => crate::e3::c08::run(ctx),
         "C09" => c09::run(ctx),
         "C10" => c10::run(ctx),
         "C11" => crate::e3::c11::run(ctx),
